@@ -468,11 +468,11 @@ Definition step_k (cur : option (list sblock)) (b : sblock) : option (list sbloc
 
 Lemma add_block_local s b k :
   let '(s', out) := add_block s b in
-  if (s_system (sb_hdr b) =? k)%Z
+  if (msg_key (sb_hdr b) =? k)%Z
   then rs_lookup k s' = fst (step_k (rs_lookup k s) b) /\ out = snd (step_k (rs_lookup k s) b)
   else rs_lookup k s' = rs_lookup k s.
 Proof.
-  unfold add_block, step_k. set (kb := s_system (sb_hdr b)).
+  unfold add_block, step_k. set (kb := msg_key (sb_hdr b)).
   set (bl := match rs_lookup kb s with
              | None => split_blocks (sb_data b) (sb_hdr b) false
              | Some old => if starts_message b then split_blocks (sb_data b) (sb_hdr b) false else old ++ [b]
@@ -503,19 +503,19 @@ Fixpoint feed_k (cur : option (list sblock)) (tr : list sblock) : option (list s
 (* outputs produced at the positions of blocks carrying system id k *)
 Fixpoint outs_of (k : Z) (tr : list sblock) (os : list (option (shdr * list N))) : list (option (shdr * list N)) :=
   match tr, os with
-  | b :: r, o :: os' => if (s_system (sb_hdr b) =? k)%Z then o :: outs_of k r os' else outs_of k r os'
+  | b :: r, o :: os' => if (msg_key (sb_hdr b) =? k)%Z then o :: outs_of k r os' else outs_of k r os'
   | _, _ => []
   end.
 
 Theorem reassembly_local k : forall tr s,
   let '(s', os) := feed s tr in
-  let '(c', os_k) := feed_k (rs_lookup k s) (filter (fun b => (s_system (sb_hdr b) =? k)%Z) tr) in
+  let '(c', os_k) := feed_k (rs_lookup k s) (filter (fun b => (msg_key (sb_hdr b) =? k)%Z) tr) in
   rs_lookup k s' = c' /\ outs_of k tr os = os_k.
 Proof.
   induction tr as [|b tr IH]; intro s; cbn [feed filter feed_k outs_of]; [split; reflexivity|].
   pose proof (add_block_local s b k) as L. destruct (add_block s b) as [s1 o].
   specialize (IH s1). destruct (feed s1 tr) as [s2 os].
-  destruct (s_system (sb_hdr b) =? k)%Z eqn:E.
+  destruct (msg_key (sb_hdr b) =? k)%Z eqn:E.
   - destruct L as [L1 L2]. cbn [feed_k outs_of]. destruct (step_k (rs_lookup k s) b) as [c1 o1]. cbn [fst snd] in L1, L2.
     rewrite L1 in IH. destruct (feed_k c1 _) as [c2 osk]. destruct IH as [I1 I2].
     split; [exact I1|]. rewrite L2, I2. reflexivity.
